@@ -120,10 +120,16 @@ Definition is_some {A} (o : option A) : bool := match o with Some _ => true | No
 Section Next.
   Variable kb : kbase.
 
-  Fixpoint next (fuel : nat) (nd : node) (w : world) {struct fuel} : res step_result :=
-    match fuel with
-    | O => OutOfFuel
-    | S f =>
+  (* One level of each of the three mutually recursive functions, with the recursive calls as
+     parameters (open recursion), so that proofs can unfold one level at a time. *)
+  Section Bodies.
+    Variable next : node -> world -> res step_result.
+    Variable and_loop : subst -> bool -> bool -> option node -> option node ->
+                        option (list goal) -> bool -> world -> res step_result.
+    Variable call_loop : term -> subst -> bool -> option node -> N -> N -> world -> res step_result.
+    Variable f : nat.     (* fuel handed to the built-ins and to unification *)
+
+    Definition next_body (nd : node) (w : world) : res step_result :=
       if node_nobt nd then Ok (nd, None, false, w) else
       match nd with
       | NBip fn ts ss nobt more =>
@@ -137,7 +143,7 @@ Section Next.
             match head with
             | None => Panic
             | Some h =>
-                do x <- next f h w;
+                do x <- next h w;
                 let '(h', sol, c, w1) := x in
                 let h'' := if c then set_nobt h' else h' in
                 Ok (NOp ONot ss (nobt || c) false (Some h'') tail optail,
@@ -149,7 +155,7 @@ Section Next.
             match head with
             | None => Panic
             | Some h =>
-                do x <- next f h w;
+                do x <- next h w;
                 let '(h', sol, c, w1) := x in
                 let h'' := if c then set_nobt h' else h' in
                 Ok (NOp OTime ss (nobt || c) false (Some h'') tail optail, sol, c,
@@ -158,20 +164,20 @@ Section Next.
       | NOp OAnd ss nobt more head tail optail =>
           match tail with
           | Some t =>
-              do x <- next f t w;
+              do x <- next t w;
               let '(t', sol, c, w1) := x in
               let nobt1 := nobt || c in
               let head1 := if c then set_nobt_opt head else head in
               match sol with
               | Some s => Ok (NOp OAnd ss nobt1 more head1 (Some t') optail, Some s, c, w1)
-              | None => and_loop f ss nobt1 more head1 (Some t') optail c w1
+              | None => and_loop ss nobt1 more head1 (Some t') optail c w1
               end
-          | None => and_loop f ss nobt more head None optail false w
+          | None => and_loop ss nobt more head None optail false w
           end
       | NOp OOr ss nobt more head tail optail =>
           match tail with
           | Some t =>
-              do x <- next f t w;
+              do x <- next t w;
               let '(t', sol, c, w1) := x in
               Ok (NOp OOr ss (nobt || c) more (if c then set_nobt_opt head else head) (Some t') optail,
                   sol, c, w1)
@@ -179,7 +185,7 @@ Section Next.
               match head with
               | None => Ok (nd, None, false, w)
               | Some h =>
-                  do x <- next f h w;
+                  do x <- next h w;
                   let '(h', sol, c, w1) := x in
                   let nobt1 := nobt || c in
                   let h'' := if c then set_nobt h' else h' in
@@ -196,7 +202,7 @@ Section Next.
                           else
                             do y <- make_node kb (GOp OOr tl) ss w1;
                             let '(t, w2) := y in
-                            do z <- next f t w2;
+                            do z <- next t w2;
                             let '(t', sol2, c2, w3) := z in
                             Ok (NOp OOr ss (nobt1 || c2) more
                                     (Some (if c2 then set_nobt h'' else h'')) (Some t') optail,
@@ -208,29 +214,24 @@ Section Next.
       | NCall t ss nobt child idx n =>
           match child with
           | Some c0 =>
-              do x <- next f c0 w;
+              do x <- next c0 w;
               let '(c1, sol, c, w1) := x in
               match sol with
               | Some s => Ok (NCall t ss (nobt || c) (Some c1) idx n, Some s, false, w1)
-              | None => call_loop f t ss (nobt || c) None idx n w1
+              | None => call_loop t ss (nobt || c) None idx n w1
               end
-          | None => call_loop f t ss nobt None idx n w
+          | None => call_loop t ss nobt None idx n w
           end
-      end
-    end
+      end.
 
-  (* the `loop` of next_solution_and: ask the head; for each answer make a tail node and
-     ask it; `acc` = a cut has already run during this request *)
-  with and_loop (fuel : nat) (ss : subst) (nobt more : bool) (head tail : option node)
-                (optail : option (list goal)) (acc : bool) (w : world) {struct fuel}
-    : res step_result :=
-    match fuel with
-    | O => OutOfFuel
-    | S f =>
+    (* the `loop` of next_solution_and: ask the head; for each answer make a tail node and
+       ask it; `acc` = a cut has already run during this request *)
+    Definition and_body (ss : subst) (nobt more : bool) (head tail : option node)
+                        (optail : option (list goal)) (acc : bool) (w : world) : res step_result :=
       match head with
       | None => Ok (NOp OAnd ss nobt more head tail optail, None, acc, w)
       | Some h =>
-          do x <- next f h w;
+          do x <- next h w;
           let '(h', sol, c, w1) := x in
           let nobt1 := nobt || c in
           let h'' := if c then set_nobt h' else h' in
@@ -245,7 +246,7 @@ Section Next.
                   else
                     do y <- make_node kb (GOp OAnd tl) s w1;
                     let '(t, w2) := y in
-                    do z <- next f t w2;
+                    do z <- next t w2;
                     let '(t', sol2, c2, w3) := z in
                     let nobt2 := nobt1 || c2 in
                     let h3 := if c2 then set_nobt h'' else h'' in
@@ -253,19 +254,15 @@ Section Next.
                     | Some s2 =>
                         Ok (NOp OAnd ss nobt2 more (Some h3) (Some t') optail, Some s2,
                             acc || c || c2, w3)
-                    | None => and_loop f ss nobt2 more (Some h3) (Some t') optail (acc || c || c2) w3
+                    | None => and_loop ss nobt2 more (Some h3) (Some t') optail (acc || c || c2) w3
                     end
               end
           end
-      end
-    end
+      end.
 
-  (* the `loop` of the ComplexGoal arm: fetch the next rule, unify its head, solve its body *)
-  with call_loop (fuel : nat) (t : term) (ss : subst) (nobt : bool) (child : option node)
-                 (idx n : N) (w : world) {struct fuel} : res step_result :=
-    match fuel with
-    | O => OutOfFuel
-    | S f =>
+    (* the `loop` of the ComplexGoal arm: fetch the next rule, unify its head, solve its body *)
+    Definition call_body (t : term) (ss : subst) (nobt : bool) (child : option node)
+                         (idx n : N) (w : world) : res step_result :=
       if nobt then Ok (NCall t ss nobt child idx n, None, false, w)
       else if n <=? idx then Ok (NCall t ss nobt child idx n, None, false, w)
       else
@@ -276,20 +273,49 @@ Section Next.
         let w1 := w_set_id w ctr in
         do u <- unify f (r_head r) t ss;
         match u with
-        | None => call_loop f t ss nobt child (idx + 1) n (w_set_id w1 fallback)
+        | None => call_loop t ss nobt child (idx + 1) n (w_set_id w1 fallback)
         | Some s =>
             if is_gnil (r_body r) then Ok (NCall t ss nobt child (idx + 1) n, Some s, false, w1)
             else
               do y <- make_node kb (r_body r) s w1;
               let '(c0, w2) := y in
-              do z <- next f c0 w2;
+              do z <- next c0 w2;
               let '(c1, sol, c, w3) := z in
               match sol with
               | Some s2 => Ok (NCall t ss (nobt || c) (Some c1) (idx + 1) n, Some s2, false, w3)
-              | None => call_loop f t ss (nobt || c) (Some c1) (idx + 1) n w3
+              | None => call_loop t ss (nobt || c) (Some c1) (idx + 1) n w3
               end
-        end
+        end.
+  End Bodies.
+
+  Fixpoint next (fuel : nat) (nd : node) (w : world) {struct fuel} : res step_result :=
+    match fuel with
+    | O => OutOfFuel
+    | S f => next_body (next f) (and_loop f) (call_loop f) f nd w
+    end
+  with and_loop (fuel : nat) (ss : subst) (nobt more : bool) (head tail : option node)
+                (optail : option (list goal)) (acc : bool) (w : world) {struct fuel}
+    : res step_result :=
+    match fuel with
+    | O => OutOfFuel
+    | S f => and_body (next f) (and_loop f) ss nobt more head tail optail acc w
+    end
+  with call_loop (fuel : nat) (t : term) (ss : subst) (nobt : bool) (child : option node)
+                 (idx n : N) (w : world) {struct fuel} : res step_result :=
+    match fuel with
+    | O => OutOfFuel
+    | S f => call_body (next f) (call_loop f) f t ss nobt child idx n w
     end.
+
+  Lemma next_S f nd w : next (S f) nd w = next_body (next f) (and_loop f) (call_loop f) f nd w.
+  Proof. reflexivity. Qed.
+  Lemma and_loop_S f ss nobt more head tail optail acc w :
+    and_loop (S f) ss nobt more head tail optail acc w =
+    and_body (next f) (and_loop f) ss nobt more head tail optail acc w.
+  Proof. reflexivity. Qed.
+  Lemma call_loop_S f t ss nobt child idx n w :
+    call_loop (S f) t ss nobt child idx n w = call_body (next f) (call_loop f) f t ss nobt child idx n w.
+  Proof. reflexivity. Qed.
 End Next.
 
 (* ---- solutions.rs ---- *)
